@@ -27,7 +27,7 @@ RULE = ('Hypothesis cases of 1-3 namespaces (0-2 generated sibling namespaces co
         'length/fixed-size/zero-terminated, GList/GSList/GHashTable nested to depth 3, GError), <attribute> children, '
         'introspectable="0"/shadowed-by/shadows/moved-to elements; every namespace of a case is compiled twice and '
         'compared with the expected typelib model; thorough adds boundary documents (255/256 interfaces, 1022-1025 '
-        'methods, 3000 entries, 2047/2048/70000-character strings). non-trivial = the document has a class or '
+        'methods, 3000/8000 entries, 2047/2048-character names, 70000-character strings, 127-200 parameters). non-trivial = the document has a class or '
         'interface with >= 3 non-empty member sections, or a nested container type, or a cross-namespace reference; '
         'distinct = hash of the case')
 ASSUMPTIONS = [
@@ -677,6 +677,17 @@ def norm_entry(T, e):
 _MEMBER_LISTS = ('fields', 'methods', 'functions', 'properties', 'signals', 'vfuncs', 'constants', 'values')
 
 
+def _clause(path):
+    """root-cause bucket: the generic tail of the path (the same ArgBlob flag is the same defect in a
+    method of an interface and in a top-level function)"""
+    parts = path.split('.')
+    if 'signature' in parts:
+        parts = parts[parts.index('signature'):]
+    elif len(parts) > 2:
+        parts = parts[-2:]
+    return 'mismatch:' + '.'.join(parts)
+
+
 class Differ(object):
     def __init__(self):
         self.n = 0
@@ -685,30 +696,30 @@ class Differ(object):
         """exp is a subset specification: every key of an expected dict must compare equal."""
         if isinstance(exp, dict):
             if not isinstance(got, dict):
-                raise Violation('mismatch:' + path, '%s: expected %r, decoded %r' % (where, exp, got))
+                raise Violation(_clause(path), '%s: expected %r, decoded %r' % (where, exp, got))
             for key in sorted(exp, key=lambda k: (k != 'tag', k != 'name', k)):
                 sub = path + '.' + key
                 if key not in got:
-                    raise Violation('mismatch:' + sub, '%s: decoded blob has no %s' % (where, key))
+                    raise Violation(_clause(sub), '%s: decoded blob has no %s' % (where, key))
                 if key in _MEMBER_LISTS:
                     self.members(exp[key], got[key], sub, where)
                 elif key == 'cid':
                     self.n += 1
                     # the format does not document where c:identifier lives: only checked when present
                     if got[key] is not None and got[key] != exp[key]:
-                        raise Violation('mismatch:' + sub, '%s: expected %r, decoded %r' % (where, exp[key], got[key]))
+                        raise Violation(_clause(sub), '%s: expected %r, decoded %r' % (where, exp[key], got[key]))
                 else:
                     self.diff(exp[key], got[key], sub, where + '.' + key)
         elif isinstance(exp, list) and exp and isinstance(exp[0], dict):
             if not isinstance(got, list) or len(exp) != len(got):
-                raise Violation('mismatch:' + path + '.length', '%s: expected %d items, decoded %r'
+                raise Violation(_clause(path + '.length'), '%s: expected %d items, decoded %r'
                                 % (where, len(exp), len(got) if isinstance(got, list) else got))
             for i, (x, g) in enumerate(zip(exp, got)):
                 self.diff(x, g, path, '%s[%d]' % (where, i))
         else:
             self.n += 1
             if not (exp == got):
-                raise Violation('mismatch:' + path, '%s: expected %r, decoded %r' % (where, exp, got))
+                raise Violation(_clause(path), '%s: expected %r, decoded %r' % (where, exp, got))
 
     def members(self, exp, got, path, where):
         """member lists are compared by name (the format does not fix an order)"""
@@ -716,7 +727,7 @@ class Differ(object):
         gn = [m['name'] for m in got]
         self.n += 1
         if sorted(en) != sorted(gn):
-            raise Violation('mismatch:' + path + '.names', '%s %s: expected members %r, decoded %r' % (where, path, en, gn))
+            raise Violation(_clause(path + '.names'), '%s %s: expected members %r, decoded %r' % (where, path, en, gn))
         gmap = {}
         for m in got:
             gmap.setdefault(m['name'], []).append(m)
@@ -824,13 +835,13 @@ def crash_bucket(rc, err):
     return 'compiler-crash(rc=%d):%s:%s' % (rc, msg, '>'.join(frames))
 
 
-def compile_doc(b, doc, cdir, outname):
+def compile_doc(b, doc, cdir, outname, timeout=300):
     gir = os.path.join(cdir, girmodel.gir_filename(doc))
     if not os.path.exists(gir):
         with open(gir, 'w') as f:
             f.write(girmodel.render_xml(doc))
     out = os.path.join(cdir, outname)
-    rc, so, se = b.compile_gir(gir, out, includedirs=[cdir, cbuild.FIXTURES])
+    rc, so, se = b.compile_gir(gir, out, includedirs=[cdir, cbuild.FIXTURES], timeout=timeout)
     data = None
     if rc == 0 and os.path.exists(out):
         with open(out, 'rb') as f:
@@ -851,8 +862,11 @@ def check_schema(doc):
 def check_doc(ctx, b, doc, env, cdir, boundary=False):
     """Compile one namespace and compare.  Returns labels."""
     check_schema(doc)
-    rc, err, data = compile_doc(b, doc, cdir, doc['name'] + '.typelib')
+    rc, err, data = compile_doc(b, doc, cdir, doc['name'] + '.typelib', timeout=900 if boundary else 300)
     where = doc['name']
+    if rc == -9 and boundary:
+        ctx.label('boundary-timeout')       # a budget that runs out is "explored", never a violation
+        return None
     if boundary and rc == -5 and re.search(r'(ERROR|WARNING|CRITICAL) \*\*', err) and 'Sanitizer' not in err and 'runtime error' not in err:
         return None         # rejected by a deliberate fatal diagnostic (g_error / fatal warning)
     if rc < 0:
@@ -878,7 +892,7 @@ def check_doc(ctx, b, doc, env, cdir, boundary=False):
     if probs:
         raise Violation('typelib-invariant:' + re.sub(r'\d+', 'N', probs[0])[:70], '%s: %s' % (where, probs[:5]))
     # (iv) determinism
-    rc2, err2, data2 = compile_doc(b, doc, cdir, doc['name'] + '.second.typelib')
+    rc2, err2, data2 = compile_doc(b, doc, cdir, doc['name'] + '.second.typelib', timeout=900 if boundary else 300)
     if rc2 != 0 or data2 != data:
         first = next((i for i in range(min(len(data), len(data2 or b''))) if data[i] != data2[i]), None) if data2 else None
         raise Violation('nondeterministic-output', '%s: second compilation rc %d, %s bytes vs %d, first difference at %r'
@@ -1021,7 +1035,7 @@ def boundary_doc(spec):
 
 BOUNDARIES = ([{'kind': 'interfaces', 'n': n} for n in (1, 2, 255, 256, 257)]
               + [{'kind': 'methods', 'n': n} for n in (1022, 1023, 1024, 1025)]
-              + [{'kind': 'entries', 'n': n} for n in (3000,)]
+              + [{'kind': 'entries', 'n': n} for n in (3000, 8000)]
               + [{'kind': 'longname', 'n': n} for n in (2047, 2048)]
               + [{'kind': 'longstring', 'n': n} for n in (4096, 70000)]
               + [{'kind': 'params', 'n': n} for n in (127, 128, 129, 200)])
@@ -1035,7 +1049,7 @@ def check_boundary(case, ctx, b):
     os.makedirs(cdir)
     try:
         labels = check_doc(ctx, b, doc, girmodel.environment([doc], 0), cdir, boundary=True)
-        ctx.label('boundary-rejected' if labels is None else 'boundary-accepted')
+        ctx.label('boundary-rejected-or-timeout' if labels is None else 'boundary-accepted')
         ctx.label('boundary:%s' % case['boundary']['kind'])
     finally:
         shutil.rmtree(cdir, ignore_errors=True)
@@ -1075,6 +1089,6 @@ def health(agg, tier):
     for lab, frac in _GATES:
         if agg['labels'].get(lab, 0) < frac * docs:
             probs.append('%s in %d of %d documents (gate %.0f%%)' % (lab, agg['labels'].get(lab, 0), docs, frac * 100))
-    if tier == 'thorough' and agg['labels'].get('boundary-accepted', 0) + agg['labels'].get('boundary-rejected', 0) < len(BOUNDARIES):
-        probs.append('boundary documents run: %d of %d' % (agg['labels'].get('boundary-accepted', 0) + agg['labels'].get('boundary-rejected', 0), len(BOUNDARIES)))
+    if tier == 'thorough' and agg['labels'].get('boundary-accepted', 0) + agg['labels'].get('boundary-rejected-or-timeout', 0) < len(BOUNDARIES):
+        probs.append('boundary documents run: %d of %d' % (agg['labels'].get('boundary-accepted', 0) + agg['labels'].get('boundary-rejected-or-timeout', 0), len(BOUNDARIES)))
     return probs
